@@ -51,6 +51,52 @@ func (w *world) checkQuiescence(sc *scenario, complete bool) {
 
 	c.Assert(w.fe.KeyLocks() == 0, "leaked-key-lock", "%d key lock(s) still held after all Gets and background builds finished", w.fe.KeyLocks())
 
+	// every result has provenance (a Get that waited on the wrong lock returns somebody else's value)
+	w.checkProvenance()
+
+	// a later Get observes the result of the last completed build: if the build that completed last
+	// for a key succeeded and its store succeeded, that value is what the backend holds at quiescence
+	// (nobody may store an older value after it; an owner that read before the store and re-stores a
+	// stale value goes on to build itself, so it is then the last build)
+	lastBuild := map[string]*buildRec{}
+
+	for _, b := range w.log.builds {
+		if b.getIdx >= 0 && b.exitStep >= 0 && (lastBuild[b.key] == nil || b.exitStep > lastBuild[b.key].exitStep) {
+			lastBuild[b.key] = b
+		}
+	}
+
+	if !c.classes["external-delete"] && !w.lossy {
+		for key, b := range lastBuild {
+			if b.err != nil {
+				continue
+			}
+
+			stored := false
+
+			for _, r := range w.log.be {
+				if r.op == "write" && r.err == nil && r.key == key && r.task == b.task && r.val == interface{}(b.tok) {
+					stored = true
+				}
+			}
+
+			if !stored {
+				continue
+			}
+
+			var held interface{}
+
+			_, _ = w.be.Walk(func(k []byte, v interface{}, _ time.Time) error {
+				if string(k) == key {
+					held = v
+				}
+
+				return nil
+			})
+			c.Assert(valEq(w.be.Generic(), held, b.tok), "last-build-not-observed", "the last completed build of %s stored %v, but the backend holds %v at quiescence", keyName([]byte(key)), b.tok, held)
+		}
+	}
+
 	// Backend content: only scenario keys, each holding the value of the last successful write.
 	last := map[string]interface{}{}
 	for k := 0; k < sc.nkeys; k++ {
